@@ -67,6 +67,12 @@ func runLoaders(c map[string]any) (any, error) {
 		return c19CredsOp(c)
 	case "rulehist":
 		return c19RuleHistory(c)
+	case "k8s":
+		return c19K8s(c)
+	case "endpoint":
+		return c19Endpoint(c)
+	case "watchfiles":
+		return c19WatchFiles(c)
 	default:
 		return nil, errors.New("loaders: unknown op " + op)
 	}
